@@ -1,6 +1,7 @@
 package main
 
 import (
+	"sort"
 	"fmt"
 	"go/token"
 	"math"
@@ -102,6 +103,9 @@ func (it *Interp) concreteInt(fr *frame, t *Term, why string) int64 {
 		return t.S()
 	}
 	vals := it.candidates(fr, t)
+	if vals == nil && it.spec == 0 {
+		vals = it.solverCandidates(fr, t, 16)
+	}
 	if vals == nil {
 		it.abort("limit", fmt.Sprintf("cannot concretise %s (%s) at %s", t, why, it.stackString(fr)))
 	}
@@ -116,6 +120,47 @@ func (it *Interp) concreteInt(fr *frame, t *Term, why string) int64 {
 		}
 	}
 	panic("unreachable")
+}
+
+// solverCandidates enumerates, with the solver, every value t can take under the path condition
+// (complete enumeration, sorted so that re-execution under a decision prefix sees the same order);
+// nil when there are more than max values or the solver gives up.
+func (it *Interp) solverCandidates(fr *frame, t *Term, max int) []uint64 {
+	wk := it.w
+	if it.ps == nil {
+		return nil
+	}
+	it.curFrame = fr
+	wk.flush()
+	syms := map[int]uint8{}
+	t.collectSyms(syms, map[*Term]bool{})
+	s := wk.solver
+	s.Note = "enumerate values at " + it.stackString(fr)
+	s.Push()
+	defer s.Pop()
+	var found []uint64
+	for {
+		r := s.Check()
+		if r == Unsat {
+			break
+		}
+		if r != Sat || len(found) >= max {
+			return nil
+		}
+		m, err := s.Values(syms)
+		if err != nil {
+			return nil
+		}
+		env := &evalEnv{gen: newEvalGen(), get: func(id int, w uint8) uint64 { return m[id] }}
+		v := t.eval(env)
+		found = append(found, v)
+		s.Assert(mkNot(mkBin(OpEq, t, mkConst(t.w, v))))
+	}
+	if len(found) == 0 {
+		return nil
+	}
+	sort.Slice(found, func(i, j int) bool { return found[i] < found[j] })
+	return found
 }
 
 // candidates lists the possible values of a single-byte-symbol term, or nil.
